@@ -168,6 +168,20 @@ func (s *SecureChannel) VerifSetReceivedSequenceNumber(n uint32) {
 	s.recvSeq, s.recvSeqSet = n, true
 }
 
+// VerifSequenceNumbers returns the sequence number of the last chunk sent with
+// the active instance and the number of the last chunk the channel accepted.
+func (s *SecureChannel) VerifSequenceNumbers() (sent, received uint32, ok bool) {
+	s.instancesMu.Lock()
+	defer s.instancesMu.Unlock()
+	if s.activeInstance == nil {
+		return 0, 0, false
+	}
+	s.activeInstance.Lock()
+	sent = s.activeInstance.sequenceNumber
+	s.activeInstance.Unlock()
+	return sent, s.recvSeq, s.recvSeqSet
+}
+
 // VerifActiveMaxBodySize returns the max body size of the active instance.
 func (s *SecureChannel) VerifActiveMaxBodySize() uint32 {
 	s.instancesMu.Lock()
